@@ -54,7 +54,7 @@ def _val(q, unit):
     return v[()] if isinstance(v, np.ndarray) else v
 
 
-def h_to_pixel(kind, parity, sky_unit, centre, m, aunit='deg'):
+def h_to_pixel(kind, parity, sky_unit, centre, m, aunit='deg', mixed=False):
     import regions as R
     _shims(m)
     w = AffineWCS(m, lon0=10.0, lat0=20.0, parity=parity)
@@ -73,7 +73,12 @@ def h_to_pixel(kind, parity, sky_unit, centre, m, aunit='deg'):
     elif kind == 'annulus-circle':
         r1 = m.pos('r1')
         sizes = {'inner_radius': r1, 'outer_radius': r1 + m.pos('dr')}
-        reg = R.CircleAnnulusSkyRegion(c, Q(sizes['inner_radius']), Q(sizes['outer_radius']))
+        if mixed:
+            # the same radii written in different angular units (inner in arcmin, outer in the case's unit)
+            inner_q = u.Quantity(sizes['inner_radius'] * (per_arcsec / 60.0), u.arcmin, dtype=object if m.sym else float)
+            reg = R.CircleAnnulusSkyRegion(c, inner_q, Q(sizes['outer_radius']))
+        else:
+            reg = R.CircleAnnulusSkyRegion(c, Q(sizes['inner_radius']), Q(sizes['outer_radius']))
     else:
         w1, h1 = m.pos('w1'), m.pos('h1')
         sizes = {'inner_width': w1, 'outer_width': w1 + m.pos('dw'), 'inner_height': h1, 'outer_height': h1 + m.pos('dh')}
@@ -243,6 +248,7 @@ def harnesses(tier):
     for kind in ('ellipse', 'rectangle', 'annulus-ellipse'):
         for au in ('rad', 'arcmin'):
             hs.append((f'to_pixel/{kind}/sky-angle-unit={au}', P(h_to_pixel, kind, -1, 'arcsec', (10.0, 20.0), aunit=au)))
+    hs.append(('to_pixel/annulus-circle/mixed-units', P(h_to_pixel, 'annulus-circle', -1, 'arcsec', (10.0, 20.0), mixed=True)))
     hs.append(('wcs-changed-in-place/circle', h_wcs_mutation))
     for kind in ('circle',):
         for parity in (-1, 1):
